@@ -27,40 +27,40 @@ pub fn registry() -> Vec<Entry> {
         entry::<c01::C01>(
             "C01",
             900,
-            3000,
-            150_000,
+            24_000,
+            600_000,
             "ABI-safe but internally wild programs (1-4 functions: multi-step and nested sp adjustment, re-used stack slots, sw zero, store-then-redefine-then-reload, sub-word stack accesses, red-zone stores across calls, arithmetic on sp copies, folding chains over all operators with boundary constants, la + loads/stores, ecalls with results, mv into a7, diamonds, counted loops, early returns, recursion) x 3-5 vectors of initial registers / memory / environment results, executed on the reference machine. At every step every claim in the node's in/out value maps of the kinds the statement names (constant, label address, entry value + constant; for registers and stack slots relative to the entry sp) is compared with the machine state of the current activation. Non-trivial = at least one derived claim (not an entry seed) was checked; distinct = different program + inputs.",
             &["reference machine", "callees are ABI-safe by construction; a trace is cut where a function writes at/above its entry sp", "RARS environment-call register table taken from the analyzer", "other value kinds (register+scalar, memory-at, CSR) are not claims in the sense of the statement"],
         ),
         entry::<c02::C02>(
             "C02",
             900,
-            4000,
-            200_000,
+            40_000,
+            1_000_000,
             "programs from three generators (ABI-safe wild functions; structured arbitrary control flow; chaotic control flow with cross-function jumps and shared code), any number of functions / call sites / loops / recursion / multiple returns. Static half on all: a reference solver computes the least solution of the documented liveness equations over the observed graph with architectural read/write sets from the model; live_in/live_out of every node, arguments()/returns() of every function and the set of 'unused value' warnings must equal it (missing = unsound, extra = not minimal). Dynamic half on the ABI-safe programs x 2-4 input vectors: for every register read on the machine, the register must be live from its defining write (or frame entry, call or ecall by convention) along the executed path of its activation; callee read-before-write argument registers must be inferred arguments and live-in at the call; values left by a callee and read by the caller must be inferred returns; no executed-and-read definition carries an 'unused value' warning. Non-trivial = at least one call and one join.",
             &["reference machine and architectural read/write table", "RARS environment-call register table taken from the analyzer", "ra is not in kill at calls in the documented equations; the reference follows the documentation"],
         ),
         entry::<c03::C03>(
             "C03",
             700,
-            4000,
-            200_000,
+            120_000,
+            2_000_000,
             "arbitrary well-formed programs in the stated domain (regions of labelled blocks with random branches/jumps/calls, cross-region jumps, shared tails, several labels per entry, multiple returns, exit ecalls inside functions, fall-through into functions, dead blocks; no indirect jump but ret) x 4-6 initial register/memory/environment vectors executed on the reference machine. Checked: successor/predecessor sets are exact inverses and stay inside the graph; every executed intra-procedural transfer (incl. call -> next instruction on return) is an edge; every edge is a fall-through, a jump to the written label or the merge of an extra return; exit ecalls have no successors; no executed line is reported unreachable. Programs with several returns are analysed 3 times (hash orders). Non-trivial = has a backward branch or a call and executed >= 5 distinct lines.",
             &["reference machine", "programs the analyzer rejects with a CFG error are skipped and counted (C16 covers them)"],
         ),
         entry::<c04::C04>(
             "C04",
             1600,
-            4000,
-            200_000,
+            20_000,
+            500_000,
             "programs generated conforming-by-construction (main + 0-5 functions of arity 0-3 with or without result, leaf and non-leaf, any subset of saved registers, shuffled frame layouts with padding and spill slots, one- or two-step frame allocation, nested if/else and counted loops, calls in loops, recursion, early returns with a full second epilogue, ecalls with and without results, data loads/stores, mv/addi into a7) and confirmed by a dynamic convention monitor on 3 executions, rendered with every surface freedom; RVParser-level lint of the staged pipeline must return no diagnostic of any kind. Non-trivial = >= 2 functions, a frame with a saved register, a loop or branch, and a call inside a loop / recursion / >= 2 calls.",
             &["'conforming' is the statement's own list, enforced by construction and by the dynamic monitor (trusted base), never by what the analyzer accepts", "nop is not generated (it is an arithmetic write to the zero register)", "programs the monitor rejects are generator bugs: discarded and counted"],
         ),
         entry::<c05::C05>(
             "C05",
             1400,
-            3200,
-            250_000,
+            16_000,
+            400_000,
             "clean base program (generated conforming, analyzer-clean, else skipped) x 16 violation classes (unsaved saved register modified; sp not restored (epilogue adjustment deleted or wrong); ra not restored; temporary read after a call; never-assigned temporary read in main / in a function; never-assigned saved register read; dead assignment; arithmetic write to zero; stack access at or above the entry sp; instructions in .data; ecall number loaded from memory; straight-line code after ret/exit; plain jump into a function; fall-through into the next function; called function first in the program) x admissible site/register. The mutated program must get a diagnostic of the class's kind located in the class's acceptance set (injected instruction / operand, or any instruction of the function writing the register for sp/ra). Where an execution can show the fault, the convention monitor must confirm it on the mutant first. Non-trivial = injection applied and (where observable) confirmed; evidence tabulates cases per class.",
             &["acceptance sets are deliberately wide where the statement does not fix which of several offending instructions is meant", "convention monitor and clean generator are the trusted base"],
         ),
@@ -79,8 +79,8 @@ pub fn registry() -> Vec<Entry> {
         entry::<c07::C07>(
             "C07",
             400,
-            6000,
-            300_000,
+            600_000,
+            8_000_000,
             "files of one statement per line (generated main+functions+data programs, every statement form) with 0-3 malformed/unsupported lines of 14 kinds inserted at random positions, LF/CRLF, with/without final newline, optionally cut into an included file. Or-A: every line with content is covered by a node or a parse error located on it; Or-B: nodes and errors of all other lines equal those of the file with the malformed lines deleted. Non-trivial = a malformed line with >= 3 good lines after it, or CRLF, or no final newline; distinct = different file contents.",
             &["line numbers are recomputed here from raw offsets", ".include lines are consumed by the parser and count as covered"],
         ),
@@ -88,8 +88,8 @@ pub fn registry() -> Vec<Entry> {
             let mut e = entry::<c08::C08>(
                 "C08",
                 8,
-                40_000,
-                3_000_000,
+                1_000_000,
+                20_000_000,
                 "decode table: every mnemonic the reference machine knows x every operand form the manual assigns a meaning to x boundary registers {zero, ra, sp, t0, a0, t6} x boundary immediates, enumerated exhaustively: each statement is parsed, the node(s) built are compared field by field (base forms) and executed by the reference machine next to the official meaning on 6 register files (result register, next instruction, memory effect), and the node's read/write sets are compared with the architectural ones. Folding: 18 operators x a 40-value boundary grid squared (exhaustive) through MathOp::operate, 27 mnemonics x 12x12 sub-grid through the value analysis, plus random 32-bit pairs; both in the overflow-checked and the release profile. Every case is non-trivial; distinct = different statement / operand pair.",
                 &[
                     "reference machine (unit-tested against hand-computed vectors and i128 arithmetic)",
@@ -102,72 +102,72 @@ pub fn registry() -> Vec<Entry> {
         entry::<c09::C09>(
             "C09",
             500,
-            5000,
-            250_000,
+            150_000,
+            2_500_000,
             "generated programs (all statement forms, data section, optional malformed lines, optional include split, optional CRLF) rendered with every surface freedom (indentation, separators, case, register spelling, radix, inline labels, comments, blank lines, leading blank lines, omitted zero offsets). Every lexer token is compared with a reference tokenizer; every node, operand, parse error and diagnostic must have consistent line/column/raw, lie on one line, and designate exactly a statement / operand / label span of the renderer's source map (or whole tokens). Non-trivial = token on line 0 after column 0, or leading blank line, or ')'-terminated instruction, or diagnostic in an included file.",
             &["reference tokenizer written from the documented token classes", "directive nodes are checked at their start only (data lists may continue on following lines)", "diagnostics attached to no file are left to C16"],
         ),
         entry::<c10::C10>(
             "C10",
             500,
-            3000,
-            100_000,
+            30_000,
+            600_000,
             "arbitrary programs (several entry labels, several returns, shared code, data labels next to code, 1-2 CFG faults incl. several undefined labels) and syntactic programs with malformed lines, single- and multi-file (include split). The library entry point RVParser::run is called 6 (thorough: 12) times on fresh readers (new file/node uuids and hasher keys each time): the sequences of (file, range, title, level, description, related) must be identical, and within one run no two items may agree in all fields. Thorough also compares separate rva processes in every output mode. Non-trivial = >= 2 diagnostics and an order-sensitive shape; detection probability for a two-way hash-order tie is 1-2^-(R-1).",
             &["hash seeds and uuids cannot be enumerated or seeded from outside; they are sampled by repetition"],
         ),
         entry::<c11::C11>(
             "C11",
             500,
-            4000,
-            200_000,
+            40_000,
+            800_000,
             "arbitrary label/call arrangements (several labels on one entry, interleaved bodies via cross-region jumps, shared tails, fall-through into functions, calls to inner labels, recursion, functions only called from dead code, multiple returns), each analysed 3 times (hash orders). From the text: F = labels named by jal-with-ra/call; required: function entries = F; nodes() of each function = nodes reachable from its entry over the observed edges (own BFS by identity); each node's owner list = functions that reach it; the exit is a reached return and every other return of a non-overlapping function leads to it; a node-in-many-functions diagnostic exists iff some node has >= 2 owners. Non-trivial = >= 2 functions and one of the listed arrangements.",
             &["interrupt-vector installation (la + csrw utvec) is not generated", "duplicates inside nodes() are counted, not reported (the statement is about the set)"],
         ),
         entry::<c12::C12>(
             "C12",
             500,
-            3000,
-            150_000,
+            30_000,
+            500_000,
             "arbitrary programs (loops, irreducible flow via cross-region jumps, recursion, many exits and returns) x a random sequence (length 0-6) of extra pass runs drawn from {value analysis, ecall termination, liveness}. Snapshot (edges by index, value/memory facts, liveness, u_def, function annotations, diagnostics) after the standard pipeline must equal the snapshot after the extra sequence and the snapshot of a second, fresh analysis; hook counters bound the sweeps: value analysis <= 4*(4+2n) over its four runs, liveness <= 4+2n. Non-trivial = loop, several returns or exit inside a function, and >= 8 nodes.",
             &["sweep counters come from the guarded hook commit", "bounds were calibrated on the repaired tree with 2x headroom (maxima are reported in the evidence)"],
         ),
         entry::<c13::C13>(
             "C13",
             1500,
-            3000,
-            150_000,
+            15_000,
+            400_000,
             "base programs from four sources (clean; clean with one injected violation; arbitrary control flow with optional CFG faults; syntactic with every statement form) rendered twice: canonically, and with the official expansion substituted for a random subset of pseudo-instructions (23 rules with operand index maps) plus every surface freedom applied per site (spacing, tabs, separators, comments, blank lines, mnemonic case, register spelling, immediate radix / character literal, inline labels, omitted zero offsets). The multisets of (diagnostic code, statement, operand) located through each rendering's own source map must be equal. Non-trivial = the base has a diagnostic or >= 3 sites were rewritten.",
             &["a diagnostic on an operand that exists only in the expansion (the inserted x0) is mapped to the instruction", "csr pseudo forms are not rewritten (RARS operand order)"],
         ),
         entry::<c14::C14>(
             "C14",
             1500,
-            3000,
-            150_000,
+            15_000,
+            400_000,
             "the same four program sources x a random permutation of t0-t6 among themselves and of s0-s11 among themselves x an injective renaming of a random subset of labels to fresh identifiers (upper case, leading underscore, dots, digits): the diagnostics (code, statement, operand) must be unchanged and the registers they designate must be the images under the permutation. Non-trivial = the base has a diagnostic and a register moved, or >= 3 labels renamed.",
             &["error titles that list label names are compared by code and location, not by text"],
         ),
         entry::<c15::C15>(
             "C15",
             1600,
-            3000,
-            120_000,
-            "program (four sources, clean and violating) x random include tree cut at line boundaries (up to 4-5 files, nesting, several includes per file) x reader fault (not found, IO error, already read) or a self-/cyclic re-inclusion directive. Through the in-memory FileReader: the diagnostics of the split program, each located in the file that holds its text and mapped to the pasted line, must equal those of the single pasted file (minus the subtree of a failing include); each failing include must give an error located exactly on its path operand; the import must stay within a budget. For one case in 12 the same files are written to a scratch directory and linted by the rva binary: --all-files must show the library's items, the default output exactly the base-file items plus the right count for other files, and the tool must terminate. Non-trivial = a diagnostic in a non-base file or a fault.",
+            24_000,
+            400_000,
+            "program (four sources, clean and violating) x random include tree cut at line boundaries (up to 4-5 files, nesting, several includes per file) x reader fault (not found, IO error, already read) or a self-/cyclic re-inclusion directive. Through the in-memory FileReader: the diagnostics of the split program, each located in the file that holds its text and mapped to the pasted line, must equal those of the single pasted file (minus the subtree of a failing include); each failing include must give an error located exactly on its path operand; the import must stay within a budget. One case in three spells the include paths as ./x, sub/../x or ./sub/.././x (same file under another name). For one case in 8 the same files are written to a scratch directory and linted by the rva binary: --all-files must show the library's items, the default output exactly the base-file items plus the right count for other files, and the tool must terminate. Non-trivial = a diagnostic in a non-base file or a fault.",
             &["MemReader decides 'already read' by path, like a file-system reader", "CLI part only for 'not found' faults (IO errors cannot be provoked portably on disk)"],
         ),
         entry::<c16::C16>(
             "C16",
             400,
-            4000,
-            200_000,
+            800_000,
+            12_000_000,
             "parse-clean arbitrary programs with 1-2 injected CFG-level faults of 12 kinds (undefined label in j/branch/call/la/load, several undefined labels, duplicate code/function label, label at end of file as jump target or unused, function without return (infinite loop / exit inside), call to a data label), optionally cut into an included file. Required: undefined/duplicate labels give an error naming the label located at a use/definition of it; any other error that stops the analysis is specific (not 'unexpected'/'assertion'), attached to a user file and has a non-empty location. Non-trivial = at least one fault injected (tabulated per kind).",
             &["when undefined and duplicate labels occur together one correctly located error is accepted (analysis stops at the first)", "a combined error for several undefined labels is accepted when it is located at an occurrence of one of them"],
         ),
         entry::<c17::C17>(
             "C17",
             24,
-            6000,
-            400_000,
+            600_000,
+            8_000_000,
             "literal = (value | malformed spelling) x notation {dec,hex,bin,char, two's-complement hex} x sign x letter case x padding, placed in 11 operand sites (li, addi, lui, lw/sw offset, jalr, .word/.byte/.half, CSR number, CSR immediate) and parsed through lexer+parser; boundaries of the 32-bit range +-2 are enumerated exhaustively over all notations and sites, the rest sampled. Non-trivial = anything but a plain positive in-range decimal; distinct = different (site, spelling).",
             &[
                 "own literal evaluator (the generator builds each spelling from a known mathematical value)",
@@ -185,8 +185,8 @@ pub fn registry() -> Vec<Entry> {
         entry::<c19::C19>(
             "C19",
             300,
-            3000,
-            150_000,
+            20_000,
+            500_000,
             "(a) dumps of real analyses of programs from three generators (ABI-safe wild functions with stack facts, chaotic control flow with function annotations, syntactic programs with CSR code): the --yaml text is loaded back (as CfgWrapper and as its node list) and compared field by field with the live graph (edges, labels, function entry/exit, value and memory facts, liveness, u_def), and dump(load(dump)) must be textually identical; (b) generated facts: one fact of the loaded structure is replaced (value of every variant - constant, address, memory, register+scalar, original+scalar, memory-at-register/original, CSR value, memory-at-CSR - with offsets 0, +-1, +-4, +-2048, i32::MIN/MAX; memory locations stack/CSR/CSR+offset with the same offsets; an edge, a liveness bit, a function entry/exit, a label), dumped, reloaded and compared with the mutated structure; (c) injectivity: original, mutant and a twin mutant (same place and payload, different variant) must have pairwise different dumps whenever their structures differ. Non-trivial = a pair of structurally different results was compared; value kinds seen are tabulated.",
             &["NodeWrapper's own == compares parser nodes by uuid, so an own structural comparison is used", "a CfgWrapper is a transparent sequence of NodeWrapper, which is how single facts are replaced through the public API"],
         ),
